@@ -6,6 +6,7 @@
    Bit flips / other messages / cross-suite replays of accepted
    commitments and the binding of blind signatures and proofs rest on collision resistance: correspondence + sweep. *)
 From ZK Require Import Laws BaseLemmas ModelLemmas SignProofs Codec Soundness Extractor.
+From ZK Require Import UpdateProofs Separation Binding BlindComplete BlindBinding.
 
 Theorem C06_blind_sign_gated :
   forall (E : env) sk pk cwp header msgs s,
@@ -89,3 +90,35 @@ Check (C06_commit_special_soundness :
   let k := fsub (SO E) (z_chal E z) (z_chal E z') in
   C = msm_acc E (g1_mul (PR E) (fdiv (SO E) (fsub (SO E) (z_s_cap E z) (z_s_cap E z')) k) G2_) Js (quot E (z_m_cap E z) (z_m_cap E z') k)).
 Print Assumptions C06_commit_special_soundness.
+
+(* binding of blind signatures: one blind signature accepted for two different (messages, committed messages, blind, header) *)
+Theorem C06_blind_verify_binding :
+  forall (E : env) (LW : Laws E) s pk header header' msgs msgs' cm cm' spb spb',
+  suite_ok E ->
+  verify_blind_sign E s pk header (Some msgs) (Some cm) (Some spb) = Ok tt ->
+  verify_blind_sign E s pk header' (Some msgs') (Some cm') (Some spb') = Ok tt ->
+  length msgs = length msgs' -> length cm = length cm' ->
+  (len (option_default [] header) <= usize_max)%N -> (len (option_default [] header') <= usize_max)%N ->
+  (msgs <> msgs' \/ cm <> cm' \/ spb <> spb' \/ option_default [] header <> option_default [] header') ->
+  (exists i, (i < length msgs)%nat /\ nth i msgs [] <> nth i msgs' [] /\ hmb' E (nth i msgs []) = hmb' E (nth i msgs' [])) \/
+  (exists i, (i < length cm)%nat /\ nth i cm [] <> nth i cm' [] /\ hmb' E (nth i cm []) = hmb' E (nth i cm' [])) \/
+  (exists Q1 H dm dm',
+     DLRelation E LW (Q1 :: H) (fsub (SO E) dm dm' :: zip_sub E (map (hmb' E) msgs ++ [spb] ++ map (hmb' E) cm) (map (hmb' E) msgs' ++ [spb'] ++ map (hmb' E) cm')) \/
+     Collision (fun x => f_of_okm (SO E) (expand E x (c_api_id_blind (cs E) ++ c_h2s (cs E)) 48))
+               (dom_input E pk Q1 H header (c_api_id_blind (cs E))) (dom_input E pk Q1 H header' (c_api_id_blind (cs E)))).
+Proof. exact blind_verify_binding. Qed.
+Check (C06_blind_verify_binding :
+  forall (E : env) (LW : Laws E) s pk header header' msgs msgs' cm cm' spb spb',
+  suite_ok E ->
+  verify_blind_sign E s pk header (Some msgs) (Some cm) (Some spb) = Ok tt ->
+  verify_blind_sign E s pk header' (Some msgs') (Some cm') (Some spb') = Ok tt ->
+  length msgs = length msgs' -> length cm = length cm' ->
+  (len (option_default [] header) <= usize_max)%N -> (len (option_default [] header') <= usize_max)%N ->
+  (msgs <> msgs' \/ cm <> cm' \/ spb <> spb' \/ option_default [] header <> option_default [] header') ->
+  (exists i, (i < length msgs)%nat /\ nth i msgs [] <> nth i msgs' [] /\ hmb' E (nth i msgs []) = hmb' E (nth i msgs' [])) \/
+  (exists i, (i < length cm)%nat /\ nth i cm [] <> nth i cm' [] /\ hmb' E (nth i cm []) = hmb' E (nth i cm' [])) \/
+  (exists Q1 H dm dm',
+     DLRelation E LW (Q1 :: H) (fsub (SO E) dm dm' :: zip_sub E (map (hmb' E) msgs ++ [spb] ++ map (hmb' E) cm) (map (hmb' E) msgs' ++ [spb'] ++ map (hmb' E) cm')) \/
+     Collision (fun x => f_of_okm (SO E) (expand E x (c_api_id_blind (cs E) ++ c_h2s (cs E)) 48))
+               (dom_input E pk Q1 H header (c_api_id_blind (cs E))) (dom_input E pk Q1 H header' (c_api_id_blind (cs E))))).
+Print Assumptions C06_blind_verify_binding.
